@@ -119,6 +119,60 @@ Section ABFProofs.
   Lemma root_collect_Loc : forall ms r, wLoc (root_collect G r ms) = wLoc r.
   Proof. induction ms as [|m tl IH]; intros r; cbn [root_collect]; auto. now rewrite IH. Qed.
 
+  (* ---- the exchange as a transaction: whatever happens to the round, what a walker has sampled itself stays
+     recoverable from its own three grids *)
+  Lemma gsub_self : forall a, gsub G a a = g0 G.
+  Proof. intros a. rewrite <- (gl_0r G HL a) at 1. apply (gl_sub G HL). Qed.
+
+  Lemma own_prepare_finish : forall t (w x : W), wLoc x = wLoc (w_prepare G w) ->
+    forall i, own_data G (w_finish t x) i = own_data G w i.
+  Proof.
+    intros t w x E i. unfold own_data, w_finish; cbn [wG wL wLoc]. rewrite E. cbn [w_prepare wLoc].
+    rewrite gsub_self, (gl_0r G HL). reflexivity.
+  Qed.
+
+  Lemma exchange_own : forall t (ws : list W) k w w',
+    nth_error ws k = Some w -> nth_error (exchange G t ws) k = Some w' ->
+    forall i, own_data G w' i = own_data G w i.
+  Proof.
+    intros t ws k w w' Hw Hw' i. unfold exchange in Hw'.
+    destruct ws as [|r others]; [destruct k; discriminate|]. cbn [map] in Hw'.
+    destruct k as [|k]; cbn [nth_error] in Hw, Hw'.
+    - injection Hw as <-. injection Hw' as <-. apply own_prepare_finish. apply root_collect_Loc.
+    - rewrite map_map, map_map in Hw'. rewrite nth_error_map in Hw'. rewrite Hw in Hw'. cbn in Hw'.
+      injection Hw' as <-. apply own_prepare_finish. reflexivity.
+  Qed.
+
+  Theorem exchange_transaction : forall t oc (ws : list W) k w w',
+    nth_error ws k = Some w -> nth_error (exchange_partial G t oc ws) k = Some w' ->
+    (w' = w \/ nth_error (exchange G t ws) k = Some w') /\ forall i, own_data G w' i = own_data G w i.
+  Proof.
+    intros t oc ws k w w' Hw Hw'. unfold exchange_partial in Hw'.
+    rewrite nth_error_map in Hw'.
+    destruct (nth_error (combine oc (combine ws (exchange G t ws))) k) as [[o [a b]]|] eqn:E; [|discriminate].
+    cbn in Hw'. injection Hw' as <-.
+    assert (Ha : nth_error ws k = Some a /\ nth_error (exchange G t ws) k = Some b).
+    { clear Hw. remember (exchange G t ws) as xs eqn:X. clear X. revert oc ws xs E.
+      induction k as [|k IH]; intros oc ws xs E.
+      - destruct oc, ws, xs; try discriminate. cbn in E. injection E as _ <- <-. split; reflexivity.
+      - destruct oc, ws, xs; try discriminate. cbn in E. apply (IH oc ws xs E). }
+    destruct Ha as [Ha Hb]. rewrite Hw in Ha. injection Ha as <-.
+    destruct o; cbn.
+    - split; [right; exact Hb|]. apply (exchange_own t ws k w b Hw Hb).
+    - split; [left; reflexivity|]. reflexivity.
+  Qed.
+
+  (* a round that every walker aborts changes nothing at all; one that every walker commits is the exchange *)
+  Theorem exchange_all_aborted : forall t (ws : list W),
+    exchange_partial G t (repeat Aborted (length ws)) ws = ws.
+  Proof.
+    intros t ws. unfold exchange_partial.
+    assert (L : length (exchange G t ws) = length ws).
+    { unfold exchange. destruct ws as [|r o]; [reflexivity|]. cbn [map]. cbn [length]. now rewrite !map_length. }
+    revert L. generalize (exchange G t ws) as xs. induction ws as [|w tl IH]; intros xs L; [reflexivity|].
+    destruct xs as [|x xs]; [discriminate|]. cbn. f_equal. apply IH. now injection L.
+  Qed.
+
   (* the order in which the deltas reach replica 0 does not matter *)
   Lemma msum_perm : forall ms ms' j, Permutation ms ms' -> msum ms j = msum ms' j.
   Proof.
@@ -479,6 +533,18 @@ Lemma czar_alias_witness_ok :
   exists r others, czar_gather_step Zgrp (czar_gather_step Zgrp czar_alias_witness) = r :: others /\
     e_z r 1 = 0 /\ e_gz r 1 = 1.
 Proof. eexists. eexists. split; [reflexivity|]. vm_compute. auto. Qed.
+
+(* replica_share() before it was made a transaction: three walkers, walkers 0 and 1 sample once, exchange, both sample
+   once more; in the next round replica 0 receives the delta of walker 1 and then fails on walker 2 (dead).  What replica 0
+   can recover as its own data is then 3 samples at address 0; it sampled 2. *)
+Definition peer_death_witness : list (ev (A:=Z)) :=
+  [ESample 0%nat 0 1; ESample 1%nat 0 1; EExchange 1; ESample 0%nat 0 1; ESample 1%nat 0 1].
+
+Lemma peer_death_old_refuted :
+  exists r w, nth_error (run Zgrp false peer_death_witness (init Zgrp 3)) 0 = Some w /\
+    root_fail_old Zgrp 1 (run Zgrp false peer_death_witness (init Zgrp 3)) = Some r /\
+    own_data Zgrp w 0 = 2 /\ own_data Zgrp r 0 <> 2.
+Proof. eexists. eexists. split; [reflexivity|]. split; [reflexivity|]. vm_compute. split; [reflexivity|discriminate]. Qed.
 
 Definition script_restart_witness : list (ev (A:=Z)) := [ESample 0%nat 0 1; ESample 1%nat 0 1; EExchange 1].
 
